@@ -5,6 +5,7 @@ import (
 	"io"
 	"os"
 	"path/filepath"
+	"strconv"
 	"strings"
 	"sync/atomic"
 	"syscall"
@@ -44,9 +45,10 @@ type pump struct {
 	lines  int64
 	stop   int32
 	done   chan struct{}
+	inject chan string // a line the pump writes next, in-stream, without a gap in the load
 }
 
-func startPump(path string, d *daemon) (*pump, error) {
+func startPump(path string, d *daemon, ses string, pid int) (*pump, error) {
 	var fd int
 	var err error
 	deadline := time.Now().Add(60 * time.Second)
@@ -60,7 +62,7 @@ func startPump(path string, d *daemon) (*pump, error) {
 		}
 		time.Sleep(time.Millisecond)
 	}
-	p := &pump{done: make(chan struct{})}
+	p := &pump{done: make(chan struct{}), inject: make(chan string, 1)}
 	go func() {
 		defer close(p.done)
 		defer syscall.Close(fd)
@@ -69,7 +71,23 @@ func startPump(path string, d *daemon) (*pump, error) {
 		// whatever is written next starts a fresh record.
 		for atomic.LoadInt32(&p.stop) == 0 {
 			seq++
-			buf := append([]byte(vlib.AuUser("USER_ACCT", vlib.BaseTSms+int64(seq), uint32(seq), 1, "4294967295", "PAM:accounting", "success")), '\n')
+			var buf []byte
+			switch {
+			case ses == "":
+				buf = append([]byte(vlib.AuUser("USER_ACCT", vlib.BaseTSms+int64(seq), uint32(seq), 1, "4294967295", "PAM:accounting", "success")), '\n')
+			case seq == 11:
+				buf = append([]byte(vlib.AuLogin(vlib.BaseTSms+int64(seq), uint32(seq), strconv.Itoa(pid), ses)), '\n')
+			default:
+				// events of a correlated session: each is rendered and written, so
+				// the audit processor is slower than the ingester and the
+				// hand-over buffer between them really fills up
+				buf = append([]byte(vlib.AuUser("USER_START", vlib.BaseTSms+int64(seq), uint32(seq), pid, ses, "PAM:session_open", "success")), '\n')
+			}
+			select {
+			case l := <-p.inject:
+				buf = []byte(l)
+			default:
+			}
 			for len(buf) > 0 {
 				n, err := syscall.Write(fd, buf)
 				if n > 0 {
@@ -136,6 +154,7 @@ func c08Run(r *vlib.Run, sc c08Scenario, idx int) (evaluated bool) {
 	misconfigured := strings.Contains(sc.Cause, "-path-")
 	var ws, wa *os.File
 	var pm *pump
+	bound := false
 	_ = misconfigured
 	openHealthy := func(path string) *os.File {
 		f, err := openFifoWriter(d, path)
@@ -156,10 +175,19 @@ func c08Run(r *vlib.Run, sc c08Scenario, idx int) (evaluated bool) {
 	}
 	if !strings.HasPrefix(sc.Cause, "audit-path") && (!sc.NoWriter || needA) {
 		if sc.Saturated {
-			pm, err = startPump(d.auditPath, d)
+			ses, pid := "", 0
+			if o.outPath == "" && ws != nil {
+				// bind a session first: login line, wait for its UserLogin in the output
+				io.WriteString(ws, "31337 Accepted password for load from 10.9.9.9 port 999 ssh2\n")
+				if d.waitForOutput(func(b []byte) bool { return strings.Contains(string(b), `"loggedAs":"load"`) }, 60*time.Second) {
+					ses, pid = "31337", 31337
+				}
+			}
+			pm, err = startPump(d.auditPath, d, ses, pid)
 			if err != nil {
 				pm = nil
 			}
+			bound = ses != ""
 		} else {
 			wa = openHealthy(d.auditPath)
 		}
@@ -170,7 +198,11 @@ func c08Run(r *vlib.Run, sc c08Scenario, idx int) (evaluated bool) {
 	if wa != nil {
 		defer wa.Close()
 	}
+	// let the workers reach their steady state (blocked reading the pipes)
+	// before the cause strikes; workload, not verdict
+	time.Sleep(200 * time.Millisecond)
 	stalls := int64(0)
+	inflight := 0
 	if sc.Saturated {
 		if pm == nil {
 			r.Inconclusive(label + ": could not open the audit pipe for pumping")
@@ -182,6 +214,22 @@ func c08Run(r *vlib.Run, sc c08Scenario, idx int) (evaluated bool) {
 			time.Sleep(time.Millisecond)
 		}
 		stalls = atomic.LoadInt64(&pm.stalls)
+		if bound {
+			// stronger evidence where it can be had: lines written to the pipe
+			// minus events that came out must exceed the buffer's 10000 slots
+			for time.Now().Before(deadline) && !d.hasExited() {
+				inflight = int(atomic.LoadInt64(&pm.lines)) - strings.Count(string(d.outputRaw()), "\n")
+				if inflight >= 10000 {
+					break
+				}
+				time.Sleep(5 * time.Millisecond)
+			}
+			if inflight < 10000 {
+				pm.halt()
+				r.Inconclusive(fmt.Sprintf("%s: only %d lines in flight between pipe and output: the hand-over buffer is not full", label, inflight))
+				return false
+			}
+		}
 		if stalls < 5 {
 			pm.halt()
 			r.Inconclusive(fmt.Sprintf("%s: the audit pipe never filled up (stalls=%d, lines=%d): saturation not reached", label, stalls, atomic.LoadInt64(&pm.lines)))
@@ -208,17 +256,8 @@ func c08Run(r *vlib.Run, sc c08Scenario, idx int) (evaluated bool) {
 	case "malformed-audit-line":
 		bad := "this is not an audit record\n"
 		if pm != nil {
-			// second writer first, so that the pipe never sees end-of-stream;
-			// then stop pumping (at a line boundary), write the bad line, pump again
-			f := openHealthy(d.auditPath)
-			pm.halt()
-			if f != nil {
-				io.WriteString(f, bad)
-			}
-			pm, _ = startPump(d.auditPath, d)
-			if f != nil {
-				defer f.Close()
-			}
+			// in-stream, at a line boundary, without interrupting the load
+			pm.inject <- bad
 		} else if wa != nil {
 			io.WriteString(wa, bad)
 		}
@@ -244,7 +283,7 @@ func c08Run(r *vlib.Run, sc c08Scenario, idx int) (evaluated bool) {
 	if sc.Saturated {
 		r.Add("saturated_scenarios_with_observed_stalls", 1)
 	}
-	row := map[string]any{"scenario": label, "exited": exited, "writer_stalls_before_injection": stalls, "lines_pumped": pumped}
+	row := map[string]any{"scenario": label, "exited": exited, "writer_stalls_before_injection": stalls, "lines_pumped": pumped, "lines_in_flight_before_injection": inflight}
 	if !exited {
 		stuck, why := classifyDaemonDump(dump)
 		if stuck {
